@@ -56,12 +56,194 @@ theorem convertF64_some_pq {v w : Rat} {a b : Unit Rat} (h : convertF64 v a b = 
 theorem convertF64_isSome (v : Rat) (a b : Unit Rat) (hq : a.pq = b.pq) :
     (convertF64 v a b).isSome = true := by
   unfold convertF64 convertF64Free
-  split <;> simp [hq]
+  split <;> simp
+
+theorem convertF64_ne_none (v : Rat) (a b : Unit Rat) (hq : a.pq = b.pq) :
+    convertF64 v a b ≠ none := by
+  intro h
+  have := convertF64_isSome v a b hq
+  rw [h] at this; cases this
 
 theorem amount_inj {v w : Rat} {u : Unit Rat} (hu : u.ratio ≠ 0) (h : amount v u = amount w u) :
     v = w := by
   rw [amount_rat, amount_rat] at h
-  have := Rat.mul_right_cancel₀ hu h  -- (v + d) = (w + d)
   grind
+
+end Cook
+
+namespace Cook
+open Arith
+
+/-! ### soundness conditions of a converter (invariants of the builder), decidable -/
+
+structure Converter.Sound (c : Converter Rat) : Prop where
+  best_mem : ∀ q s u, u ∈ ((c.best q).conversions s).unitsOf → u ∈ c.allUnits ∧ u.pq = q
+  id_inj : ∀ u v, u ∈ c.allUnits → v ∈ c.allUnits → u.id = v.id → u = v
+  ratio_ne : ∀ u, u ∈ c.allUnits → u.ratio ≠ 0
+  symbol : ∀ u, u ∈ c.allUnits → u.symbol?.isSome = true
+
+def soundB (c : Converter Rat) : Bool :=
+  PhysQ.all.all (fun q => [System.metric, System.imperial].all (fun s =>
+    ((c.best q).conversions s).unitsOf.all (fun u => c.allUnits.contains u && decide (u.pq = q))))
+  && c.allUnits.all (fun u => c.allUnits.all (fun v => decide (u.id = v.id → u = v)))
+  && c.allUnits.all (fun u => decide (u.ratio ≠ 0) && u.symbol?.isSome)
+
+theorem soundB_sound (c : Converter Rat) (h : soundB c = true) : c.Sound := by
+  simp only [soundB, Bool.and_eq_true, List.all_eq_true, decide_eq_true_eq, List.contains_eq_mem,
+    PhysQ.all] at h
+  obtain ⟨⟨h1, h2⟩, h3⟩ := h
+  refine ⟨?_, ?_, ?_, ?_⟩
+  · intro q s u hu
+    have hq : q ∈ [PhysQ.volume, .mass, .length, .temperature, .time] := by cases q <;> simp
+    have hs : s ∈ [System.metric, System.imperial] := by cases s <;> simp
+    exact h1 q hq s hs u hu
+  · intro u v hu hv; exact h2 u hu v hv
+  · intro u hu; exact (h3 u hu).1
+  · intro u hu; exact (h3 u hu).2
+
+theorem findUnit_mem {c : Converter Rat} {k : Str} {u : Unit Rat} (h : c.findUnit k = some u) :
+    u ∈ c.allUnits := List.mem_of_find?_eq_some h
+
+end Cook
+
+namespace Cook
+open Arith
+
+/-! ### amounts of values -/
+
+/-- the numbers a value states (`Number::value`, fraction error included) -/
+def Value.parts : Value Rat → List Rat
+  | .number n => [n.value]
+  | .range s e => [s.value, e.value]
+  | .text _ => []
+
+def ConvertValue.parts : ConvertValue Rat → List Rat
+  | .number n => [n]
+  | .range s e => [s, e]
+
+/-- the amounts (in base units) of `v` read in unit `u` -/
+def amounts (ps : List Rat) (u : Unit Rat) : List Rat := ps.map (fun x => amount x u)
+
+theorem toValue_parts (v : ConvertValue Rat) : v.toValue.parts = v.parts := by
+  cases v <;> rfl
+
+theorem ofValue_parts {v : Value Rat} {cv : ConvertValue Rat} (h : ConvertValue.ofValue v = .ok cv) :
+    cv.parts = v.parts := by
+  cases v <;> simp [ConvertValue.ofValue] at h <;> subst h <;> rfl
+
+theorem ofValue_error {v : Value Rat} {e : ConvErr} (h : ConvertValue.ofValue v = .error e) :
+    ∃ t, v = .text t ∧ e = .textValue t := by
+  cases v <;> simp [ConvertValue.ofValue] at h
+  exact ⟨_, rfl, h.symm⟩
+
+/-! ### best unit -/
+
+theorem bestUnit_mem {bc : BestConversions Rat} {value : ConvertValue Rat} {unit b : Unit Rat}
+    (h : bc.bestUnit value unit = .ok (some b)) : b ∈ bc.unitsOf := by
+  unfold BestConversions.bestUnit at h
+  simp only at h
+  split at h
+  · cases h
+  · rename_i base hb
+    have hbase : base ∈ bc.entries := List.mem_of_mem_head? hb
+    split at h
+    · cases h
+    · split at h
+      · rename_i e he
+        have : e ∈ bc.entries := by
+          have := List.mem_of_find?_eq_some he
+          simpa using this
+        simp only [Except.ok.injEq, Option.some.injEq] at h
+        subst h
+        exact List.mem_map.mpr ⟨e, this, rfl⟩
+      · simp only [Except.ok.injEq, Option.some.injEq] at h
+        subst h
+        exact List.mem_map.mpr ⟨base, hbase, rfl⟩
+
+theorem bestUnit_none {bc : BestConversions Rat} {value : ConvertValue Rat} {unit : Unit Rat}
+    (h : bc.bestUnit value unit = .ok none) : bc.entries = [] := by
+  unfold BestConversions.bestUnit at h
+  simp only at h
+  split at h
+  · rename_i hb
+    cases hl : bc.entries with
+    | nil => rfl
+    | cons a l => simp [hl] at hb
+  · split at h
+    · cases h
+    · split at h <;> cases h
+
+theorem bestUnit_empty (bc : BestConversions Rat) (value : ConvertValue Rat) (unit : Unit Rat)
+    (h : bc.entries = []) : bc.bestUnit value unit = .ok none := by
+  unfold BestConversions.bestUnit
+  simp [h]
+
+theorem bestUnit_error {bc : BestConversions Rat} {value : ConvertValue Rat} {unit : Unit Rat}
+    {e : ConvErr} (h : bc.bestUnit value unit = .error e) : e = .panic .mixedAssert := by
+  unfold BestConversions.bestUnit at h
+  simp only at h
+  split at h
+  · cases h
+  · split at h
+    · simp only [Except.error.injEq] at h; exact h.symm
+    · split at h <;> cases h
+
+/-- with units of one quantity the assertion inside `best_unit` cannot fire -/
+theorem bestUnit_ok {bc : BestConversions Rat} (value : ConvertValue Rat) (unit : Unit Rat)
+    (hq : ∀ b ∈ bc.unitsOf, b.pq = unit.pq) : ∃ r, bc.bestUnit value unit = .ok r := by
+  unfold BestConversions.bestUnit
+  simp only
+  split
+  · exact ⟨_, rfl⟩
+  · rename_i base hb
+    have hbase : base.2 ∈ bc.unitsOf := List.mem_map.mpr ⟨base, List.mem_of_mem_head? hb, rfl⟩
+    split
+    · rename_i hn; exact absurd hn (convertF64_ne_none _ _ _ (hq _ hbase).symm)
+    · split <;> exact ⟨_, rfl⟩
+
+/-! ### `convert_value`, `convert_to_unit`, `convert_to_best`, `Converter::convert` -/
+
+theorem convertValue_parts {value v' : ConvertValue Rat} {a b : Unit Rat}
+    (h : convertValue value a b = .ok v') (hb : b.ratio ≠ 0) (hid : a.id = b.id → a = b) :
+    amounts v'.parts b = amounts value.parts a := by
+  unfold convertValue at h
+  split at h
+  · split at h
+    · cases h
+    · rename_i r hr
+      simp only [Except.ok.injEq] at h; subst h
+      simp [amounts, ConvertValue.parts, convertF64_some_amount hr hb hid]
+  · split at h
+    · cases h
+    · rename_i s' hs
+      split at h
+      · cases h
+      · rename_i e' he
+        simp only [Except.ok.injEq] at h; subst h
+        simp [amounts, ConvertValue.parts, convertF64_some_amount hs hb hid,
+          convertF64_some_amount he hb hid]
+
+theorem convertValue_error {value : ConvertValue Rat} {a b : Unit Rat} {e : ConvErr}
+    (h : convertValue value a b = .error e) : e = .panic .mixedAssert := by
+  unfold convertValue at h
+  repeat' split at h
+  all_goals (cases h <;> rfl)
+
+theorem convertValue_ok (value : ConvertValue Rat) (a b : Unit Rat) (hq : a.pq = b.pq) :
+    ∃ v', convertValue value a b = .ok v' := by
+  unfold convertValue
+  cases value with
+  | number n =>
+    simp only
+    split
+    · rename_i hn; exact absurd hn (convertF64_ne_none _ _ _ hq)
+    · exact ⟨_, rfl⟩
+  | range s e =>
+    simp only
+    split
+    · rename_i hn; exact absurd hn (convertF64_ne_none _ _ _ hq)
+    · split
+      · rename_i hn; exact absurd hn (convertF64_ne_none _ _ _ hq)
+      · exact ⟨_, rfl⟩
 
 end Cook
